@@ -190,6 +190,9 @@ def waitForEcu (e : Ecu σ) : Nat → σ → σ × R Bool
 /-- the 10 s of `wait_for_ecu` in half seconds -/
 def waitBudget : Nat := 20
 
+/-- `retries` of `check_and_set_session` as both scanners call it (default of the method / `retries=3`) -/
+def checkRetries : Nat := 3
+
 /-! ### service scan -/
 
 structure SvcCfg where
@@ -231,7 +234,7 @@ deriving Repr
 /-- `if session is not None and self.config.check_session: await self.ecu.check_and_set_session(session)` -/
 def sessionCheck (e : Ecu σ) (cfg : SvcCfg) (session : Option Nat) (s : σ) : σ × R Bool :=
   match session with
-  | some sess => if cfg.checkSession then checkAndSetSession e cfg.hooks sess 3 s else (s, .ok true)
+  | some sess => if cfg.checkSession then checkAndSetSession e cfg.hooks sess checkRetries s else (s, .ok true)
   | none => (s, .ok true)
 
 /-- `perform_scan(session)` over the given service ids (the code iterates 0x00..0xFF) -/
@@ -360,7 +363,7 @@ def IdCount.addTo (c : IdCount) : IdCount := { c with timeouts := c.timeouts + 1
 /-- the session check of the identifier scan: every `n`-th identifier -/
 def idSessionCheck (e : Ecu σ) (cfg : IdCfg) (session : Option Nat) (did : Nat) (s : σ) : σ × R Bool :=
   match session, cfg.checkSession with
-  | some sess, some n => if n ≠ 0 ∧ did % n = 0 then checkAndSetSession e cfg.hooks sess 3 s else (s, .ok true)
+  | some sess, some n => if n ≠ 0 ∧ did % n = 0 then checkAndSetSession e cfg.hooks sess checkRetries s else (s, .ok true)
   | _, _ => (s, .ok true)
 
 /-- the main loop of `ScanIdentifiers.perform_scan` over the given (identifier, sub-function) pairs -/
@@ -473,15 +476,15 @@ def maxPending : Nat := 120
 def exchangeLoop (w : WireEcu σ) (pdu : Bytes) : Nat → σ → σ × Ans
   | 0, s => (s, .timeout)
   | n+1, s =>
-    match w.wstep s pdu with
-    | (s', ⟨k, fin⟩) =>
-      if maxPending ≤ k then (s', .stuck)
-      else
-        match fin with
-        | .pos p => (s', .pos p)
-        | .garbage => (s', .illegal)
-        | .silent => if n = 0 then (s', .timeout) else exchangeLoop w pdu n s'
-        | .neg c => if c = BRR ∧ k = 0 ∧ n ≠ 0 then exchangeLoop w pdu n s' else (s', .neg c)
+    if maxPending ≤ (w.wstep s pdu).2.pendings then ((w.wstep s pdu).1, .stuck)
+    else
+      match (w.wstep s pdu).2.final with
+      | .pos p => ((w.wstep s pdu).1, .pos p)
+      | .garbage => ((w.wstep s pdu).1, .illegal)
+      | .silent => if n = 0 then ((w.wstep s pdu).1, .timeout) else exchangeLoop w pdu n (w.wstep s pdu).1
+      | .neg c =>
+        if c = BRR ∧ (w.wstep s pdu).2.pendings = 0 ∧ n ≠ 0 then exchangeLoop w pdu n (w.wstep s pdu).1
+        else ((w.wstep s pdu).1, .neg c)
 
 /-- the exchange-level ECU that the real client makes out of a wire-level one; `retry pdu` is the `max_retry` in
     force for the call site that sends `pdu` -/
